@@ -17,6 +17,7 @@ import MwVerif.Driver.Style
 import MwVerif.Driver.Lists
 import MwVerif.Driver.Braces
 import MwVerif.Driver.SplitRow
+import MwVerif.Driver.Table
 
 open MwVerif.Driver
 
@@ -36,6 +37,7 @@ def main (args : List String) : IO UInt32 := do
   | ["lists"] => loop stdin stdout Lists.step; return 0
   | ["braces"] => loop stdin stdout Braces.step; return 0
   | ["splitrow"] => loop stdin stdout SplitRow.step; return 0
+  | ["table"] => loop stdin stdout Table.step; return 0
   | ["c20"] => loop stdin stdout C20.step; return 0
   | ["c10"] => loop stdin stdout C10.step; return 0
   | ["c13"] => loop stdin stdout C13.step; return 0
